@@ -3,7 +3,7 @@ EXTENDS CdcContract, Json, IOUtils, GraphLookup
 G == JsonDeserialize(IOEnv.GRAPH)
 NDuts == Len(G.duts)
 VARIABLES d, s, ph
-vars == <<d, s, q, hold, lastw, lastr, wfresh, rfresh, oprev, seen, run, obs, ph>>
+vars == <<d, s, q, hold, lastw, lastr, wfresh, rfresh, oprev, seen, run, rs, obs, ph>>
 C == G.duts[d].cfg
 Init == /\ d \in 1..NDuts /\ s = 0 /\ ph = 0 /\ CInit
 Step(iv) ==
@@ -18,9 +18,11 @@ Step(iv) ==
             /\ s' = -1 /\ d' = d /\ ph' = 0 /\ UNCHANGED cvars
 Next == \E iv \in Inputs(C) : Step(iv)
 Spec == Init /\ [][Next]_vars /\ WF_vars(Next)
-Alias == [d |-> d, s |-> s, obs |-> obs, q |-> q, seen |-> seen,
+Alias == [d |-> d, s |-> s, obs |-> obs, q |-> q, seen |-> seen, rs |-> rs,
           iv |-> CHOOSE iv \in Inputs(C) : Step(iv), ns |-> s']
-(* both clocks keep ticking; producer and consumer cooperate  =>  tokens keep arriving *)
+(* the constructive environment (Inputs) and the predicate T-mode uses (Legal) describe the same set of moves *)
+LegalAgrees == s >= 0 => \A iv \in Cand(C) : Legal(C, iv) <=> (iv \in Inputs(C))
+(* both clocks keep ticking; producer and consumer cooperate (and no reset)  =>  tokens keep arriving *)
 Progress == (([]<>(obs.wtick)) /\ ([]<>(obs.rtick)) /\ (<>[](obs.coop))) => []<>(obs.srcfire)
 (* bus: after the input has been stable for long enough the output reflects it *)
 Fresh == \A v \in 0..3 : (([]<>(obs.wtick)) /\ ([]<>(obs.rtick)) /\ (<>[](obs.stable = v))) => <>[](obs.out = v)
